@@ -143,5 +143,14 @@ CHECKS = {
         note="Stub leaves installed by replacing C7N_Rewriter.primitive from outside (as the unit tests do); real leaves limited to one per family and one Tags reader per tree.",
         design_ref="DESIGN.md §4 C18",
     ),
+    "C19": dict(
+        technique="property-based testing (Hypothesis): translate-then-evaluate differential against the named relation applied directly in Python, literal round trips, duration-length oracle, parse check of every table entry read from the rewriters' source",
+        category="exploration",
+        text="Every op x value kind x value_type with resources at, just below and just above the comparison boundary; keys plain/dotted/tag:/length(); all Unicode strings as "
+             "value, list member, key, tag name and value_from URL (recording stub); day and second counts vs exact Fractions; all 69+ (rewriter, resource type) table entries "
+             "parsed with the library's parser.",
+        note="Relation semantics as in Custodian's ValueFilter (present/not-null = truthy, absent/empty = falsy; age/expiration as time since / until); one recorded finding (glacier table entry, pinned by a test).",
+        design_ref="DESIGN.md §4 C19",
+    ),
 }
 NOT_APPLICABLE = {}
